@@ -31,12 +31,17 @@ def beh(id_, props, ops, sw=False, nidl=False, so=False, nide=False, be="inmem")
     B.append(dict(id=id_, props=props, cfg=dict(sw=sw, nidl=nidl, so=so, nide=nide, be=be, rmerr=(be == "file"), certKeys=["k1", "k2", "k3"], tokens=["t1", "t2"]), ops=ops))
 
 
+def PC(k, frm): return dict(op="SetPrevCert", k=k, **{"from": frm})
+# a record naming a previous certificate key whose own record is gone: signatures by that key prove nothing
+for nidl in (True, False):
+    beh("f05_prev_cert_key" + ("n" if nidl else ""), ["C05"], [A("k1", "e1", "n1"), A("k2", "e1", "n2"), NID("k1"), NID("k2"), PC("k2", "k1"), G("k2", "k2", "N1"), G("k1", "k1", "N1"), R("k1"),
+                                                         G("k2", "k1", "N1"), G("k2", "k1", "none"), G("k1", "k1", "N1"), G("k2", "k1", "N1", hasState=True, ssig="k1"), G("k2", "k2", "N1")], nidl=nidl)
 def FR(t, ka, kb, e="e1", be="inmem"): return dict(op="FetchRace", t=t, ka=ka, kb=kb, e=e, be=be)
 # overlapping fetches presenting the same token: known finding KF-C06-1 on the in-memory back end; the file back end refuses the loser
 beh("kf_c06_race", ["C06"], [T("t1", "s1"), FR("t1", "k1", "k2"), F("k3", "e1", "t1"), T("t2"), FR("t2", "k3", "k1"), FR("t2", "k3", "k2")])
 beh("kf_c06_racew", ["C06"], [T("t1"), FR("t1", "k2", "k1", "e2")], sw=True)
 for sw in (False, True):
-    beh("f06_race_file" + ("w" if sw else ""), ["C06"], [T("t1", "s1"), FR("t1", "k1", "k2", be="file"), F("k3", "e1", "t1"), F("k1", "e1", "t1"), T("t2"), F("k3", "e2", "t2", "zero"), F("k3", "e2", "t2", "neg"),
+    beh("f06_race_file" + ("w" if sw else ""), ["C06", "C01"], [T("t1", "s1"), FR("t1", "k1", "k2", be="file"), F("k3", "e1", "t1"), F("k1", "e1", "t1"), T("t2"), F("k3", "e2", "t2", "zero"), F("k3", "e2", "t2", "neg"),
                                                           FR("t2", "k3", "k1", "e2", be="file"), FR("t2", "k3", "k2", be="file")], sw=sw, be="file")
 beh("f06_lifetimes", ["C06", "C01"], [T("t1"), F("k1", "e1", "t1", "zero"), F("k1", "e1", "t1", "neg"), F("k1", "e1", "t1", "tiny"), F("k1", "e1", "t1"), T("t2", "s1"), F("k2", "e1", "t2", "neg"), F("k2", "e1", "t2", "mid")])
 for sw in (False, True):
@@ -116,7 +121,7 @@ beh("f01_selfinfo", ["C01"], [F("k1", "e1", "n1", selfinfo=True), F("k1", "e1", 
 for sw in (False, True):
     beh("f06_whole" + ("w" if sw else ""), ["C06"], [T("t1", "s1"), AGE, T("t2"), dict(op="TransplantWhole", t="t1", t2="t2"), F("k1", "e1", "t1", "mid"), F("k1", "e1", "t1"),
                                                  F("k2", "e1", "t2", "mid"), F("k3", "e1", "t2")], sw=sw)
-beh("f03_structured", ["C03"], [SUB(api, m, prime=p) for m in ["appendField22", "appendUnknownField", "noNotAfter"] for api in ("authorize", "fetch") for p in (False, True)])
+beh("f03_structured", ["C03"], [SUB(api, m, prime=p) for m in ["appendField22", "appendUnknownField", "noNotAfter", "noCertType", "noEncType"] for api in ("authorize", "fetch") for p in (False, True)])
 beh("f05_kx_request", ["C05"], [A("k1", "e1", "n1"), A("k2", "e1", "n1"), NID("k1"), NID("k2"), G("kx", "k1", nid="N1", hasState=True, ssig="kx"), G("kx", "k1", nid="N1"),
                                 G("kx", "kx", nid="N1"), G("kx", "kx"), G("k3", "k3", nid="N1"), G("kx", "k2", nid="N1", hasState=True, ssig="k2", order=("k2", "k1", "k3")),
                                 G("k1", "k1", nid="N2"), G("kx", "kx", nid="N2")], nidl=True)
